@@ -377,9 +377,13 @@ func c18Lengths(c *work.Ctx) {
 			}
 			src := []byte(f.mk(n))
 			nb := ladderBucket(n)
+			fresh := strings.HasPrefix(f.name, "fresh:")
 			std := stdjson.Valid(src)
 			// Valid
 			var g bool
+			if fresh {
+				ladderFreshPools()
+			}
 			if p, msg := util.Safe(func() { g = json.Valid(append([]byte(nil), src...)) }); p {
 				c.Violation(fmt.Sprintf("length ladder : Valid : panic : %s : %s", f.name, nb), id, msg)
 			} else if g != std {
@@ -388,6 +392,9 @@ func c18Lengths(c *work.Ctx) {
 			c.Outcome(fmt.Sprint(std))
 			// Compact, Indent
 			for _, fn := range []*c18Fn{&compact, &indent} {
+				if fresh {
+					ladderFreshPools()
+				}
 				if kind, detail := c18Check(fn, src, false); kind != "" {
 					c.Violation(fmt.Sprintf("length ladder : %s : %s : %s : %s", fn.name, kind, f.name, nb), id, clipTailS(detail))
 				}
